@@ -97,7 +97,39 @@ func propC06(r *Run) {
 		nreq := 10 + r.Choose("nreq", 40)
 		var trace []string
 		for k := 0; k < nreq; k++ {
-			switch r.Choose("between", 8) {
+			switch r.Choose("between", 9) {
+			case 8:
+				// a login request that does not carry both credentials (after whatever came before:
+				// handlers share the process, and state left by an earlier complete login must not
+				// complete this one) never yields a session
+				who := []string{"zq-root-admin", "zq-second-admin", "zq-plain-user"}[r.Choose("shaped-login-user", 3)]
+				raw := []string{
+					fmt.Sprintf(`{"username":%q}`, who), fmt.Sprintf(`{"username":%q,"password":null}`, who), `{}`, `{"password":null}`,
+					fmt.Sprintf(`{"password":%q}`, pw[who]), fmt.Sprintf(`{"username":%q,"password":""}`, who), `null`, `[]`, `not json`,
+					fmt.Sprintf(`{"username":%q,"password":`, who), `{"username":null,"password":null}`, fmt.Sprintf(`{"username":null,"password":%q}`, pw[who]),
+					fmt.Sprintf(`{"username":%q,"password":42}`, who), ``,
+				}[r.Choose("shaped-login-body", 14)]
+				var status int
+				var m map[string]any
+				var respBody string
+				done := make(chan struct{})
+				go func() {
+					status, m, respBody = w.postJSON(a, "/api/authenticate", raw)
+					close(done)
+				}()
+				if wedge := w.drainUntil(done); wedge != "" {
+					r.FailOther("C10", wedgeSignature(wedge), "%s", wedge)
+				}
+				_, gotSession := m["session"]
+				r.Logf("#%d shaped login %s -> %d", k, simrt.Q(raw), status)
+				if (status >= 200 && status < 300) || gotSession {
+					r.Fail("token/issued-without-password", "/api/authenticate with body %s answers %d (session issued: %v): a session is only issued for a submitted, correct password; response %s", simrt.Q(raw), status, gotSession, truncateA(respBody, 200))
+				}
+				if status == -1 {
+					r.Fail("handler/panic/authenticate/shaped", "login body %s makes the handler panic: %s", simrt.Q(raw), truncateA(respBody, 300))
+				}
+				r.Count("probe:incomplete-login-bodies")
+				continue
 			case 0:
 				d := []time.Duration{time.Second, 300 * time.Second, 598 * time.Second, 602 * time.Second, 100 * time.Second}[r.Choose("clock", 5)]
 				time.Sleep(d)
